@@ -13,6 +13,11 @@ type Mem = GuestMemoryMmap<()>;
 
 const SIZE: usize = 8192;
 
+/// Region size per slot: a page multiple, a non-multiple and less than a page.
+fn size_of_slot(slot: usize) -> usize {
+    [SIZE, 0x1800, 100][slot % 3]
+}
+
 #[derive(Clone, Copy, Debug, PartialEq, Eq, Hash, PartialOrd, Ord)]
 pub enum Kind {
     OwnedAnon,
@@ -53,6 +58,8 @@ enum Handle {
 
 struct Inst {
     kind: Kind,
+    /// length of the mapping the library made for this region
+    map_len: usize,
     ptr: usize,
     born: usize,
     tag: u8,
@@ -109,6 +116,7 @@ impl World {
 
     fn create(&mut self, kind: Kind) -> Result<(), String> {
         let slot = self.insts.len();
+        let size = size_of_slot(slot);
         let base = GuestAddress(0x10_0000 * (slot as u64 + 1));
         let tag = 0x40 + slot as u8;
         self.sync_log();
@@ -117,12 +125,12 @@ impl World {
         let mut grant_index = None;
         let region: Reg = match kind {
             #[cfg(not(feature = "xen"))]
-            Kind::OwnedAnon => GuestRegionMmap::from_range(base, SIZE, None).map_err(|e| format!("{:?}", e))?,
+            Kind::OwnedAnon => GuestRegionMmap::from_range(base, size, None).map_err(|e| format!("{:?}", e))?,
             #[cfg(not(feature = "xen"))]
             Kind::OwnedFile => {
                 let f = crate::layouts::tempfile().unwrap();
                 f.set_len(SIZE as u64).unwrap();
-                GuestRegionMmap::from_range(base, SIZE, Some(vm_memory::FileOffset::new(f, 0))).map_err(|e| format!("{:?}", e))?
+                GuestRegionMmap::from_range(base, size, Some(vm_memory::FileOffset::new(f, 0))).map_err(|e| format!("{:?}", e))?
             }
             #[cfg(not(feature = "xen"))]
             Kind::ExternalRaw | Kind::ExternalRawFile => {
@@ -146,7 +154,7 @@ impl World {
                 assert!(p != libc::MAP_FAILED);
                 start_recording_keep();
                 external = Some((p as usize, SIZE));
-                let mut b = MmapRegionBuilder::new(SIZE).with_mmap_prot(libc::PROT_READ | libc::PROT_WRITE).with_mmap_flags(if file.is_some() { libc::MAP_SHARED } else { libc::MAP_PRIVATE | libc::MAP_ANONYMOUS });
+                let mut b = MmapRegionBuilder::new(size).with_mmap_prot(libc::PROT_READ | libc::PROT_WRITE).with_mmap_flags(if file.is_some() { libc::MAP_SHARED } else { libc::MAP_PRIVATE | libc::MAP_ANONYMOUS });
                 if let Some(f) = file {
                     b = b.with_file_offset(vm_memory::FileOffset::new(f, 0));
                 }
@@ -155,7 +163,7 @@ impl World {
                 GuestRegionMmap::new(r, base).map_err(|e| format!("{:?}", e))?
             }
             #[cfg(feature = "xen")]
-            Kind::XenUnix => GuestRegionMmap::from_range(base, SIZE, None).map_err(|e| format!("{:?}", e))?,
+            Kind::XenUnix => GuestRegionMmap::from_range(base, size, None).map_err(|e| format!("{:?}", e))?,
             #[cfg(feature = "xen")]
             Kind::XenGrant => {
                 let first_page = 0x100 * (slot as u64 + 1); // guest address 0x10_0000 * (slot + 1)
@@ -177,6 +185,8 @@ impl World {
         let born = self.log.len();
         self.insts.push(Inst {
             kind,
+            // grant / foreign mappings are made in whole pages and are created with SIZE bytes here
+            map_len: if matches!(kind, Kind::XenGrant | Kind::XenForeign) { SIZE } else { size },
             ptr: region.as_ptr() as usize,
             born,
             tag,
@@ -334,7 +344,7 @@ impl World {
                 }
                 // readable through the mapping
                 let t = unsafe { std::ptr::read_volatile(inst.ptr as *const u8) };
-                let t2 = unsafe { std::ptr::read_volatile((inst.ptr + SIZE - 1) as *const u8) };
+                let t2 = unsafe { std::ptr::read_volatile((inst.ptr + inst.map_len - 1) as *const u8) };
                 let _ = t2;
                 // (emulated foreign mappings all alias offset 0 of the device file: tag not compared)
                 if t != inst.tag && inst.kind != Kind::XenForeign {
@@ -345,8 +355,8 @@ impl World {
                     return Err((format!("{}/not-released-exactly-once", kind), format!("slot {} has no owner left; it was passed to munmap {} time(s)", slot, unmaps.len())));
                 }
                 if let MapEvent::Unmap { len, ret, .. } = unmaps[0] {
-                    if *len != SIZE || *ret != 0 {
-                        return Err((format!("{}/released-with-wrong-extent", kind), format!("slot {}: munmap(len {}) returned {}, mapped length is {}", slot, len, ret, SIZE)));
+                    if *len != inst.map_len || *ret != 0 {
+                        return Err((format!("{}/released-with-wrong-extent", kind), format!("slot {}: munmap(len {}) returned {}, mapped length is {}", slot, len, ret, inst.map_len)));
                     }
                 }
                 #[cfg(feature = "xen")]
